@@ -119,3 +119,11 @@ impl Rng {
         self.bytes(n)
     }
 }
+
+impl Rng {
+    /// Random bytes whose length is picked from `lens`.
+    pub fn bytes_of(&mut self, lens: &[usize]) -> Vec<u8> {
+        let n = lens[self.usize(lens.len())];
+        self.bytes(n)
+    }
+}
